@@ -91,10 +91,15 @@ def normalize(s):
 
 
 def f18c_probe(ctx):
-    """Finding F18c kills the process, so its reproduction runs in a go test process of its own."""
-    rc, out, outdir = ctx.go_test("./sample/", OVERLAY, "^TestVerifC18F18c$")
+    """Finding F18c kills the process, so its reproduction runs in a go test process of its own.  Fails closed: if the
+    reproduction did not execute (no journal, grammar initialisation failed, journal stuck at `begin` although the process
+    ended normally, timeout) that is a violation of its own, not silence."""
+    rc, out, outdir = ctx.go_test("./sample/", OVERLAY, "^TestVerifC18F18c$", timeout=1800)
     j = os.path.join(outdir, "f18c.txt")
-    if not os.path.exists(j):
+    timed_out = rc == 124 or "test timed out after" in out
+    if not os.path.exists(j) or timed_out:
+        ctx.violation("f18c-probe-did-not-run", "", "TestVerifC18F18c left no journal (rc=%s%s): %s"
+                      % (rc, ", timeout" if timed_out else "", out[-400:].replace("\n", " ")), no_input=True)
         return []
     parts = open(j).read().rstrip("\n").split("\t")
     if parts[0] == "begin" and rc != 0:
@@ -102,9 +107,14 @@ def f18c_probe(ctx):
         why = m.group(1) if m else out[-300:].replace("\n", " ")
         return [{"kind": "grammar-accept-rejected-crash", "case": parts[1],
                  "detail": "temperature 0, grammar accepts only a token whose logit is -Inf: the process died inside Sample: " + why}]
-    if parts[0] == "returned" and parts[2].startswith("ok"):
+    if parts[0] == "returned" and len(parts) > 2 and parts[2].startswith("ok"):
         return [{"kind": "grammar-rejected-token", "case": parts[1],
                  "detail": "temperature 0, every accepted token has logit -Inf, Sample returned " + parts[2]}]
+    if parts[0] == "returned" and len(parts) > 2 and rc == 0:
+        ctx.coverage["f18c_probe"] = parts[2]       # the repaired tree: an error instead of a rejected token
+        return []
+    ctx.violation("f18c-probe-did-not-run", parts[1] if len(parts) > 1 else "",
+                  "the F18c reproduction did not execute to its end: journal says %r, rc=%s" % (parts[0], rc), no_input=True)
     return []
 
 
@@ -138,6 +148,16 @@ REQUIRED_BRANCHES = [
     "br_pick_first", "br_pick_middle", "br_pick_last", "br_nan_guard",
     "br_unseeded_call", "unseeded_witness_found", "rng_draws",
     "grammar_path_fast", "grammar_path_slow", "large_vocab_histories", "env_repro_histories",
+    # the comparisons / monitors themselves must have run
+    "l2_membership_checked", "contract_ok", "hist_ops", "ghist_ops", "large_hist_ops", "l2_nan_weighted_checked",
+]
+# (skipped, total, maximal share): a skip that grows beyond its usual share means a monitor is being bypassed
+BOUNDED_SKIPS = [
+    ("hist_ops_skipped_tie_order_or_weird", "cases", 0.30),
+    ("l2_skipped_weird_params", "calls", 0.10),
+    ("l2_membership_skipped_no_stage_values", "calls", 0.10),
+    ("grammar_init_failed", "grammar_histories", 0.05),
+    ("contract_nan_weird_params", "calls", 0.05),
 ]
 
 
@@ -148,6 +168,15 @@ def coverage_required(ctx):
     if missing:
         ctx.violation("correspondence-coverage", "", "branches of the sampler never taken by the real code in this run: "
                       + ", ".join(missing), no_input=True)
+    over = []
+    for skip, total, share in BOUNDED_SKIPS:
+        n, t = ctx.stats.get(skip, 0), ctx.stats.get(total, 0)
+        if t and n > share * t:
+            over.append("%s=%d of %s=%d (limit %.0f%%)" % (skip, n, total, t, 100 * share))
+    ctx.coverage["skips_over_limit"] = over
+    if over:
+        ctx.violation("correspondence-coverage", "", "comparisons / monitors skipped more often than their usual share: "
+                      + "; ".join(over), no_input=True)
 
 
 def regenerate_callsites(ctx):
@@ -216,10 +245,14 @@ def run(ctx):
         env["VERIF_C18_FIX"] = FIX_OVERRIDE
     if ctx.replay:
         env["VERIF_REPLAY"] = ctx.replay_line_file()
-    rc, out, outdir = ctx.go_test("./sample/", OVERLAY, "^TestVerifC18$", env=env)
+    rc, out, outdir = ctx.go_test("./sample/", OVERLAY, "^TestVerifC18$", env=env, timeout=3000)
     if rc != 0:
         cur = os.path.join(outdir, "current.txt")
-        if os.path.exists(cur):
+        if rc == 124 or "test timed out after" in out:
+            # a wall-clock timeout (loaded machine) says nothing about the history that happened to be journalled
+            ctx.violation("driver-timeout", "", "the driver did not finish within its (generous) time limit: "
+                          + out[-400:].replace("\n", " "), no_input=True)
+        elif os.path.exists(cur):
             # the process died inside a real grammar call: the journalled history is the failing input
             ctx.violation("driver-crashed", open(cur).read().strip(),
                           "the test process died inside Sample on this grammar history: " + out[-600:].replace("\n", " "))
